@@ -470,6 +470,46 @@ theorem run_bind {α β : Type} (d : Nat) (p : Prog α) (f : α → Prog β) :
     | true => simp only [if_true]; rw [ih]
     | false => rfl
 
+/-! ## sequencing and stalls -/
+
+/-- a program that stalls still stalls when something is sequenced after it -/
+theorem stalls_bind_left {α β : Type} (f : α → Prog β) {p : Prog α} {pre : Bytes} {ss : List Bytes}
+    (h : Stalls p pre ss) : Stalls (p.bind f) pre ss := by
+  induction h with
+  | here hno => exact Stalls.here hno
+  | later hE _ ih => exact Stalls.later hE ih
+
+/-- `Exactly p pre streams r`: every phase of `p` receives a stream at whose end its predicate
+    first holds, the streams are used up, and `p` ends in `r` -/
+inductive Exactly {α : Type} : Prog α → Bytes → List Bytes → α → Prop where
+  | ret (r : α) : Exactly (.ret r) [] [] r
+  | io {ws P T k pre s ss r} (hE : ExactAt P (pre ++ s)) (h : Exactly (k (pre ++ s)) [] ss r) :
+      Exactly (.io ws P T k) pre (s :: ss) r
+
+/-- a stall in what follows a program that completes exactly is a stall of the sequence -/
+theorem stalls_bind_right {α β : Type} (f : α → Prog β) {p : Prog α} {pre : Bytes} {ss : List Bytes}
+    {r : α} (h : Exactly p pre ss r) {rest : List Bytes} (hs : Stalls (f r) [] rest) :
+    Stalls (p.bind f) pre (ss ++ rest) := by
+  induction h with
+  | ret r => exact hs
+  | io hE _ ih => exact Stalls.later hE (ih hs)
+
+theorem seqP_cons_cons (p q : Prog Bytes) (ps : List (Prog Bytes)) :
+    seqP (p :: q :: ps) = p.bind fun _ => seqP (q :: ps) := rfl
+
+/-- the head of a sequence stalls -/
+theorem seqP_stalls_head {p : Prog Bytes} {pre : Bytes} {ss : List Bytes} (h : Stalls p pre ss)
+    (rest : List (Prog Bytes)) : Stalls (seqP (p :: rest)) pre ss := by
+  cases rest with
+  | nil => exact h
+  | cons q qs => rw [seqP_cons_cons]; exact stalls_bind_left _ h
+
+/-- the head completes exactly, the remainder stalls -/
+theorem seqP_stalls_later {p q : Prog Bytes} {ss ss' : List Bytes} {r : Bytes}
+    (h : Exactly p [] ss r) (rest : List (Prog Bytes)) (hs : Stalls (seqP (q :: rest)) [] ss') :
+    Stalls (seqP (p :: q :: rest)) [] (ss ++ ss') := by
+  rw [seqP_cons_cons]; exact stalls_bind_right _ h hs
+
 /-! ## bridge to the untimed channel model (C01) -/
 
 /-- against a device that answers promptly, `SendInputB` in model time is the untimed
